@@ -1185,6 +1185,41 @@ Definition tr_tup_Decode (fuel : nat) (rd : go_reader) (u_data : (list ((list N)
     (fun st : go_reader * (list ((list N) * (list N))) * bool * Z * bool => let '(rd, u_data, have, ty, err) := st in
     Return (rd, err, u_data)))))).
 
+(* tars/transport/tcphandler.go: func tcpHandler.recv, statements "if err != nil {" .. "if err != nil {" *)
+Definition tr_srv_recv_event (currBuffer : (list N)) (err : bool) (is_closed : Z) (is_eof : bool) (no_data : bool) (now_ : Z) (idle_timeout : Z) (idle_time : Z) (num_invoke : Z) : ctl (list N) (((list N) + (list N)) + unit) :=
+  if (Bool.eqb err false)
+    then Next currBuffer
+    else if (if (is_closed =? 1) then ((go_len currBuffer) =? 0) else false)
+      then Return (inr tt)
+      else if (if (if ((go_len currBuffer) =? 0) then (num_invoke =? 0) else false) then (negb (1000000000 =? 0)) else true) then (if (if (if ((go_len currBuffer) =? 0) then (num_invoke =? 0) else false) then ((wrapS 64 (idle_time + (wrapS 64 (Z.quot idle_timeout 1000000000)))) <? now_) else false)
+      then Return (inr tt)
+      else bindc (if no_data
+        then Return (inl (inr currBuffer))
+        else Next tt)
+      (fun _ : unit =>
+      bindc (if is_eof
+        then Next tt
+        else Next tt)
+      (fun _ : unit =>
+      Return (inr tt)))) else Panic.
+
+(* tars/transport/tarsclient.go: func connection.recv, statements "if err != nil {" .. "if err != nil {" *)
+Definition tr_cli_recv_event (currBuffer : (list N)) (err : bool) (is_eof : bool) (is_op_error : bool) (no_data : bool) : ctl (list N) (((list N) + (list N)) + unit) :=
+  if (Bool.eqb err false)
+    then Next currBuffer
+    else bindc (if no_data
+        then Return (inl (inr currBuffer))
+        else Next tt)
+      (fun _ : unit =>
+      let ok := is_op_error in
+      if ok
+      then Return (inr tt)
+      else bindc (if is_eof
+        then Next tt
+        else Next tt)
+      (fun _ : unit =>
+      Return (inr tt))).
+
 (* tars/transport/tarsclient.go: func connection.recv, statements "currBuffer = append(currBuffer, buffer[:n]...)" .. "for {" *)
 Definition tr_cli_recv_chunk (fuel : nat) (buffer : (list N)) (currBuffer : (list N)) (n : Z) (parse_package : list N -> Z * Z) (out : list (list N)) : ctl ((list (list N)) * (list N)) (list (list N) * unit) :=
   if (go_slice_ok buffer 0 n) then (let currBuffer := currBuffer ++ (go_slice buffer 0 n) in
